@@ -322,14 +322,16 @@ def rule_p1(ctx, F):
             ctx.bad("P1", "ts_tree_edit:root-is-cow-result", "ts_tree_edit must assign self->root exactly once, from ts_subtree_edit(self->root, edit, pool) (found %d matching of %d stores)" % (len(st), len(others)))
     fn = ctx.need_fn(F, "ts_subtree_edit", "P1")
     if fn:
-        mk = [pt for pt, n in find(fn, "result = ts_subtree_make_mut(pool, *entry.tree)")] or [pt for pt, e in fn.points() if e.get("k") == "decl" and e["name"] == "result" and M(fn).match("ts_subtree_make_mut(pool, *entry.tree)", e.get("init") or {})]
-        writes = sorted({pt for pt, n, l, op in stores(fn) if "result" in roots(l) and (heap_store(l) or writes_record(l, "SubtreeInlineData"))})
+        res = bind(fn, "result", "ts_subtree_make_mut(pool, *entry.tree)")
+        bind(fn, "child", "&_[i]")
+        mk = [pt for pt, n in find(fn, "result = ts_subtree_make_mut(pool, *entry.tree)")] or [pt for pt, e in fn.points() if e.get("k") == "decl" and e["name"] == res and M(fn).match("ts_subtree_make_mut(pool, *entry.tree)", e.get("init") or {})]
+        writes = sorted({pt for pt, n, l, op in stores(fn) if res in roots(l) and (heap_store(l) or writes_record(l, "SubtreeInlineData"))})
         ctx.floor("stores through `result` in ts_subtree_edit", len(writes), 3)
         ctx.before("P1", "ts_subtree_edit:writes-go-through-make_mut", fn, writes, mk, "every node written by ts_subtree_edit is first passed through ts_subtree_make_mut")
         setch = [pt for pt, n in find(fn, "ts_subtree_set_has_changes(&result)")]
         ctx.before("P1", "ts_subtree_edit:set_has_changes-after-make_mut", fn, setch, mk, "ts_subtree_set_has_changes(&result) acts on the make_mut result")
         wb = [pt for pt, n in find(fn, "*entry.tree = ts_subtree_from_mut(result)")]
-        child_ptr = [pt for pt, e in fn.points() if e.get("k") == "decl" and e["name"] == "child"]
+        child_ptr = [pt for pt, e in fn.points() if e.get("k") == "decl" and e["name"] == fn.cur("child")]
         ctx.before("P1", "ts_subtree_edit:write-back-before-descending", fn, child_ptr, wb,
                    "pointers into the children array are taken only after the (now exclusively owned) node was written back")
         ctx.before("P1", "ts_subtree_edit:write-back-after-make_mut", fn, wb, mk, "the write-back stores the make_mut result")
